@@ -54,6 +54,11 @@ func WithGlobalTx(ctx context.Context, gc *GtxConfig, business CallbackWithCtx) 
 		ctx = InitSeataContext(ctx)
 	}
 
+	// this scope may share its context with an enclosing scope (local nesting): whatever it does to
+	// the transaction info (xid, role, name, status), the enclosing scope must find its own again
+	enclosing := *GetTx(ctx)
+	defer SetTx(ctx, &enclosing)
+
 	if IsGlobalTx(ctx) {
 		clearTxConf(ctx)
 	}
